@@ -28,6 +28,31 @@ class _Continue(Exception):
     pass
 
 
+def abstract_escapes(body):
+    """return / break / continue statements of a block that leave the block (not those of nested defs / loops)."""
+    out, seen = [], set()
+
+    def walk(nodes, in_loop):
+        for n in nodes:
+            if isinstance(n, (ast.FunctionDef, ast.AsyncFunctionDef, ast.Lambda, ast.ClassDef)):
+                continue
+            if isinstance(n, ast.Return) and "return" not in seen:
+                seen.add("return")
+                out.append(("return", n))
+            elif isinstance(n, ast.Break) and not in_loop and "break" not in seen:
+                seen.add("break")
+                out.append(("break", n))
+            elif isinstance(n, ast.Continue) and not in_loop and "continue" not in seen:
+                seen.add("continue")
+                out.append(("continue", n))
+            for fld in ("body", "orelse", "finalbody", "handlers"):
+                sub = getattr(n, fld, None)
+                if isinstance(sub, list):
+                    walk(sub, in_loop or (isinstance(n, (ast.For, ast.While)) and fld == "body"))
+    walk(body, False)
+    return out
+
+
 BUILTIN_EXC_PARENT = {
     "BaseException": None, "Exception": "BaseException", "KeyboardInterrupt": "BaseException",
     "SystemExit": "BaseException", "GeneratorExit": "BaseException",
@@ -1388,6 +1413,16 @@ class Ex:
             # declared abstract block: its effect is summarised by the sidecar (frame + deny-list checked there)
             if self.st.branch(self.truth(self.ev(s.test, fr), fr)):
                 ab(self, s, fr)
+                # control transfers out of the abstracted block are NOT abstracted away: the (abstract) condition
+                # guarding them is over-approximated by a nondeterministic choice, and the transfer is executed
+                for kind, node in abstract_escapes(s.body):
+                    if self.st.branch(z3.Bool(self.st.fresh_name(f"abstract_{kind}"))):
+                        self.st.assumptions.add(f"abstract block {ast.unparse(s.test)!r}: condition of its `{kind}` statement over-approximated (nondeterministic)")
+                        if kind == "return":
+                            if node.value is not None and not isinstance(node.value, ast.Constant):
+                                raise Unsupported("abstract block returns a computed value")
+                            raise _Return(self.ev(node.value, fr) if node.value else NONE)
+                        raise (_Break() if kind == "break" else _Continue())
             else:
                 self.exec_block(s.orelse, fr)
             return
